@@ -2,6 +2,7 @@
 From OV Require Import Common.Base C15.Model.
 From Coq Require Import ZifyBool ZifyNat ZifyN.
 Local Open Scope N_scope.
+Ltac Zify.zify_post_hook ::= Z.div_mod_to_equations.
 
 (* ---------- witnesses against the current code (variant [defective]) ---------- *)
 Definition ex_base : N := 1681915904.
@@ -11,3 +12,723 @@ Definition ex_raw : rawcfg :=
 Definition ex_cfg : cfg := effective ex_raw.
 Definition pool_of (v : variant) (r : rawcfg) : pool :=
   match configure v r with Some p => p | None => {| p_addrs := []; p_subs := [] |} end.
+
+Definition wf (c : cfg) : Prop :=
+  1 <= c_bs c /\ c_pstart c <= c_pend c /\ c_pend c < two16 /\ 1 <= c_max c.
+
+Lemma usable_eq c : wf c -> usable c = c_pend c - c_pstart c + 1.
+Proof. unfold wf, usable, two16, two32. intros. lia. Qed.
+
+Lemma tb_bound c idx : wf c -> idx < total_blocks c -> c_pstart c + idx * c_bs c + c_bs c - 1 <= c_pend c.
+Proof.
+  intros W H. pose proof (usable_eq c W) as U. unfold total_blocks in H. rewrite U in H.
+  destruct W as (B & R & P & M).
+  assert (c_bs c * ((c_pend c - c_pstart c + 1) / c_bs c) <= c_pend c - c_pstart c + 1) by (apply N.mul_div_le; lia).
+  assert ((idx + 1) * c_bs c <= ((c_pend c - c_pstart c + 1) / c_bs c) * c_bs c) by (apply N.mul_le_mono_r; lia).
+  lia.
+Qed.
+
+Lemma start_ok_spec c s : wf c -> start_ok c (total_blocks c) s = true ->
+  exists idx, idx < total_blocks c /\ s = c_pstart c + idx * c_bs c /\ idx_of c s = idx /\ s + c_bs c - 1 <= c_pend c.
+Proof.
+  intros W H. unfold start_ok in H. rewrite !andb_true_iff, N.leb_le, N.eqb_eq, N.ltb_lt in H.
+  destruct H as ((H1 & H2) & H3).
+  exists ((s - c_pstart c) / c_bs c).
+  pose proof (tb_bound c _ W H3) as TB.
+  assert (B : c_bs c <> 0) by (destruct W; lia).
+  pose proof (N.div_mod (s - c_pstart c) (c_bs c) B) as DM. rewrite H2 in DM.
+  assert (E : s = c_pstart c + (s - c_pstart c) / c_bs c * c_bs c) by lia.
+  split; [exact H3|]. split; [exact E|]. split.
+  - unfold idx_of, sub16. destruct W as (? & ? & ? & ?). unfold two16 in *.
+    assert (s < 65536) by lia. assert ((s + 65536 - c_pstart c) mod 65536 = s - c_pstart c) by lia. congruence.
+  - lia.
+Qed.
+
+Lemma block_at_spec c ip idx : wf c -> idx < total_blocks c ->
+  let b := block_at c ip idx in
+  b_ip b = ip /\ b_start b = c_pstart c + idx * c_bs c /\ b_end b = b_start b + c_bs c - 1 /\
+  start_ok c (total_blocks c) (b_start b) = true /\ idx_of c (b_start b) = idx.
+Proof.
+  intros W H. pose proof (tb_bound c idx W H) as TB. destruct W as (B & R & P & M).
+  assert (S1 : add16 (c_pstart c) (mul16 (u16 idx) (c_bs c)) = c_pstart c + idx * c_bs c).
+  { unfold add16, mul16, u16, two16 in *.
+    assert (idx * 1 <= idx * c_bs c) by (apply N.mul_le_mono_l; lia).
+    rewrite (N.mod_small idx) by lia. rewrite (N.mod_small (idx * c_bs c)) by lia. apply N.mod_small. lia. }
+  cbn [block_at b_ip b_start b_end]. rewrite S1.
+  assert (S2 : sub16 (add16 (c_pstart c + idx * c_bs c) (c_bs c)) 1 = c_pstart c + idx * c_bs c + c_bs c - 1).
+  { unfold sub16, add16, two16 in *.
+    assert (D : c_pstart c + idx * c_bs c + c_bs c <= 65536) by lia.
+    destruct (N.eq_dec (c_pstart c + idx * c_bs c + c_bs c) 65536) as [E|E].
+    - rewrite E. rewrite N.mod_same by lia. cbn. reflexivity.
+    - rewrite (N.mod_small (c_pstart c + idx * c_bs c + c_bs c)) by lia.
+      replace (c_pstart c + idx * c_bs c + c_bs c + 65536 - 1) with ((c_pstart c + idx * c_bs c + c_bs c - 1) + 1 * 65536) by lia.
+      rewrite N.mod_add by lia. apply N.mod_small. lia. }
+  rewrite S2.
+  assert (SO : start_ok c (total_blocks c) (c_pstart c + idx * c_bs c) = true).
+  { unfold start_ok. rewrite !andb_true_iff, N.leb_le, N.eqb_eq, N.ltb_lt.
+    replace (c_pstart c + idx * c_bs c - c_pstart c) with (idx * c_bs c) by lia.
+    rewrite N.mod_mul by lia. rewrite N.div_mul by lia. repeat split; try lia. }
+  repeat split; try assumption.
+  destruct (start_ok_spec c _ (conj B (conj R (conj P M))) SO) as (i' & _ & E & I & _).
+  rewrite I. assert (i' * c_bs c = idx * c_bs c) by lia.
+  apply N.mul_cancel_r in H0; lia.
+Qed.
+
+Lemma start_ok_inj c s1 s2 : wf c -> start_ok c (total_blocks c) s1 = true -> start_ok c (total_blocks c) s2 = true ->
+  idx_of c s1 = idx_of c s2 -> s1 = s2.
+Proof.
+  intros W H1 H2 E. destruct (start_ok_spec c s1 W H1) as (i1 & _ & E1 & I1 & _).
+  destruct (start_ok_spec c s2 W H2) as (i2 & _ & E2 & I2 & _). congruence.
+Qed.
+
+Lemma start_ok_disjoint c s1 s2 : wf c -> start_ok c (total_blocks c) s1 = true -> start_ok c (total_blocks c) s2 = true ->
+  s1 <> s2 -> s1 + c_bs c - 1 < s2 \/ s2 + c_bs c - 1 < s1.
+Proof.
+  intros W H1 H2 NE. destruct (start_ok_spec c s1 W H1) as (i1 & _ & E1 & _ & _).
+  destruct (start_ok_spec c s2 W H2) as (i2 & _ & E2 & _ & _). destruct W as (B & _).
+  destruct (N.lt_trichotomy i1 i2) as [L|[L|L]].
+  - left. assert ((i1 + 1) * c_bs c <= i2 * c_bs c) by (apply N.mul_le_mono_r; lia). lia.
+  - subst. congruence.
+  - right. assert ((i2 + 1) * c_bs c <= i1 * c_bs c) by (apply N.mul_le_mono_r; lia). lia.
+Qed.
+
+(* ---------- bitmap ---------- *)
+Lemma upd_nth_length {A} (f : A -> A) l : forall n, length (upd_nth n f l) = length l.
+Proof. induction l as [|x l IH]; intros [|n]; simpl; auto. Qed.
+
+Lemma nth_upd_nth {A} (f : A -> A) d l : forall i j,
+  nth j (upd_nth i f l) d = if (Nat.eqb j i && Nat.ltb i (length l))%bool then f (nth i l d) else nth j l d.
+Proof.
+  induction l as [|x l IH]; intros [|i] [|j]; simpl; auto.
+  - destruct (Nat.eqb j i); reflexivity.
+  - rewrite IH. reflexivity.
+Qed.
+
+Lemma idx_split i j : i = j <-> (word_of i = word_of j /\ i mod 64 = j mod 64).
+Proof.
+  unfold word_of. split; [intros ->; auto|]. intros [H1 H2].
+  assert (i / 64 = j / 64) by lia.
+  rewrite (N.div_mod i 64), (N.div_mod j 64) by lia. congruence.
+Qed.
+
+Lemma test_set_bit bm i j :
+  test_bit (set_bit bm i) j = ((Nat.ltb (word_of i) (length bm) && (i =? j)) || test_bit bm j)%bool.
+Proof.
+  unfold test_bit, set_bit. rewrite nth_upd_nth.
+  destruct (Nat.eqb_spec (word_of j) (word_of i)) as [E|E]; simpl.
+  - destruct (Nat.ltb (word_of i) (length bm)) eqn:L; simpl; [|reflexivity].
+    rewrite E.  cbv beta. match goal with |- context [N.lor ?w (N.pos (Pos.shiftl 1 ?n))] => change (N.lor w (N.pos (Pos.shiftl 1 n))) with (N.setbit w n) end. rewrite N.setbit_eqb.
+    destruct (N.eqb_spec (i mod 64) (j mod 64)) as [M|M]; destruct (N.eqb_spec i j) as [IJ|IJ]; simpl; try reflexivity.
+    + exfalso. apply IJ. apply idx_split. auto.
+    + exfalso. subst. auto.
+  - destruct (N.eqb_spec i j) as [IJ|IJ]; [subst; congruence|]. rewrite andb_false_r. reflexivity.
+Qed.
+
+Lemma test_clear_bit bm i j :
+  test_bit (clear_bit bm i) j = (test_bit bm j && negb (i =? j))%bool.
+Proof.
+  unfold test_bit, clear_bit. rewrite nth_upd_nth.
+  destruct (Nat.eqb_spec (word_of j) (word_of i)) as [E|E]; simpl.
+  - destruct (Nat.ltb_spec (word_of i) (length bm)) as [L|L]; simpl.
+    + rewrite E. cbv beta. match goal with |- context [N.ldiff ?w (N.pos (Pos.shiftl 1 ?n))] => change (N.ldiff w (N.pos (Pos.shiftl 1 n))) with (N.clearbit w n) end. rewrite N.clearbit_eqb.
+      destruct (N.eqb_spec (i mod 64) (j mod 64)) as [M|M]; destruct (N.eqb_spec i j) as [IJ|IJ]; simpl; try reflexivity.
+      * exfalso. apply IJ. apply idx_split. auto.
+      * exfalso. subst. auto.
+    + destruct (N.eqb_spec i j) as [IJ|IJ]; simpl; [|rewrite andb_true_r; reflexivity].
+      subst. rewrite nth_overflow by lia. rewrite N.bits_0. reflexivity.
+  - destruct (N.eqb_spec i j) as [IJ|IJ]; [subst; congruence|]. simpl. rewrite andb_true_r. reflexivity.
+Qed.
+
+Lemma set_bit_length bm i : length (set_bit bm i) = length bm.
+Proof. apply upd_nth_length. Qed.
+Lemma clear_bit_length bm i : length (clear_bit bm i) = length bm.
+Proof. apply upd_nth_length. Qed.
+
+(* ---------- address list ---------- *)
+Definition faddr (addrs : list addr) (ip : N) : option addr := find (fun a => a_ip a =? ip) addrs.
+Definition static (a : addr) : N * N * bool * nat := (a_ip a, a_total a, a_excl a, length (a_bits a)).
+Definition st_ip (x : N * N * bool * nat) : N := fst (fst (fst x)).
+
+Lemma findi_spec {A} (f : A -> bool) l : forall i, findi f l = Some i -> exists a, nth_error l i = Some a /\ f a = true.
+Proof.
+  induction l as [|x l IH]; simpl; intros i H; [discriminate|].
+  destruct (f x) eqn:F.
+  - inversion H; subst. exists x; auto.
+  - destruct (findi f l) as [j|] eqn:E; [|discriminate]. inversion H; subst. simpl. apply IH; reflexivity.
+Qed.
+Lemma findi_none {A} (f : A -> bool) l : findi f l = None -> forall a, In a l -> f a = false.
+Proof.
+  induction l as [|x l IH]; simpl; intros H a Ha; [contradiction|].
+  destruct (f x) eqn:F; [discriminate|]. destruct (findi f l) eqn:E; [discriminate|].
+  destruct Ha as [->|Ha]; auto.
+Qed.
+
+Lemma map_static_upd f l : (forall a, static (f a) = static a) -> forall i, map static (upd_nth i f l) = map static l.
+Proof.
+  intros H. induction l as [|x l IH]; intros [|i]; simpl; auto.
+  - rewrite H. reflexivity.
+  - rewrite IH. reflexivity.
+Qed.
+Lemma map_ip_static l : map a_ip l = map st_ip (map static l).
+Proof. rewrite map_map. apply map_ext. reflexivity. Qed.
+
+Lemma faddr_upd f l ip : (forall a, a_ip (f a) = a_ip a) -> NoDup (map a_ip l) ->
+  forall i a, nth_error l i = Some a ->
+  faddr (upd_nth i f l) ip = if a_ip a =? ip then Some (f a) else faddr l ip.
+Proof.
+  intros Hf. unfold faddr. induction l as [|x l IH]; intros ND [|i] a H; simpl in *; try discriminate.
+  - inversion H; subst. rewrite Hf. destruct (a_ip a =? ip); reflexivity.
+  - inversion ND as [|? ? NI ND']; subst.
+    destruct (N.eqb_spec (a_ip x) ip) as [E|E].
+    + destruct (N.eqb_spec (a_ip a) ip) as [E2|E2]; [|reflexivity].
+      exfalso. apply NI. rewrite E, <- E2. apply in_map. eapply nth_error_In; eauto.
+    + apply IH; auto.
+Qed.
+Lemma faddr_nth l : NoDup (map a_ip l) -> forall i a, nth_error l i = Some a -> faddr l (a_ip a) = Some a.
+Proof.
+  unfold faddr. induction l as [|x l IH]; intros ND [|i] a H; simpl in *; try discriminate.
+  - inversion H; subst. rewrite N.eqb_refl. reflexivity.
+  - inversion ND as [|? ? NI ND']; subst.
+    destruct (N.eqb_spec (a_ip x) (a_ip a)) as [E|E]; [|eauto].
+    exfalso. apply NI. rewrite E. apply in_map. eapply nth_error_In; eauto.
+Qed.
+Lemma faddr_some l ip a : faddr l ip = Some a -> In a l /\ a_ip a = ip.
+Proof. unfold faddr. intros H. apply find_some in H. rewrite N.eqb_eq in H. exact H. Qed.
+Lemma faddr_findi l ip : forall i, findi (fun a => a_ip a =? ip) l = Some i -> exists a, nth_error l i = Some a /\ faddr l ip = Some a.
+Proof.
+  unfold faddr. induction l as [|x l IH]; simpl; intros i H; [discriminate|].
+  destruct (a_ip x =? ip) eqn:F.
+  - inversion H; subst. exists x; auto.
+  - destruct (findi _ l) as [j|] eqn:E; [|discriminate]. inversion H; subst. simpl. apply IH; reflexivity.
+Qed.
+Lemma faddr_findi_none l ip : findi (fun a => a_ip a =? ip) l = None -> faddr l ip = None.
+Proof.
+  unfold faddr. induction l as [|x l IH]; simpl; intros H; [reflexivity|].
+  destruct (a_ip x =? ip) eqn:F; [discriminate|]. destruct (findi _ l) eqn:E; [discriminate|]. auto.
+Qed.
+
+(* ---------- subscriber map ---------- *)
+Lemma sub_get_set k bl subs k' : sub_get k' (sub_set k bl subs) = if k' =? k then Some bl else sub_get k' subs.
+Proof.
+  unfold sub_get. induction subs as [|e r IH]; simpl.
+  - rewrite (N.eqb_sym k k'). destruct (k' =? k); reflexivity.
+  - destruct (N.eqb_spec (fst e) k) as [E|E]; simpl.
+    + rewrite (N.eqb_sym k k'). destruct (N.eqb_spec k' k) as [E2|E2]; [reflexivity|].
+      destruct (N.eqb_spec (fst e) k'); [congruence|]. reflexivity.
+    + destruct (N.eqb_spec (fst e) k') as [E2|E2].
+      * destruct (N.eqb_spec k' k); [congruence|reflexivity].
+      * exact IH.
+Qed.
+Lemma sub_get_del k subs k' : sub_get k' (sub_del k subs) = if k' =? k then None else sub_get k' subs.
+Proof.
+  unfold sub_get, sub_del. induction subs as [|e r IH]; simpl.
+  - destruct (k' =? k); reflexivity.
+  - destruct (N.eqb_spec (fst e) k) as [E|E]; simpl.
+    + rewrite IH. destruct (N.eqb_spec k' k) as [E2|E2]; [reflexivity|].
+      destruct (N.eqb_spec (fst e) k'); [congruence|reflexivity].
+    + destruct (N.eqb_spec (fst e) k') as [E2|E2].
+      * destruct (N.eqb_spec k' k); [congruence|reflexivity].
+      * exact IH.
+Qed.
+Lemma blocks_of_add p k b addrs' k' :
+  blocks_of (add_block p k b addrs') k' = if k' =? k then blocks_of p k ++ [b] else blocks_of p k'.
+Proof. unfold blocks_of, add_block; simpl. rewrite sub_get_set. destruct (k' =? k); reflexivity. Qed.
+
+(* ---------- the invariant ---------- *)
+Definition wfst (c : cfg) (st : list (N * N * bool * nat)) : Prop :=
+  NoDup (map st_ip st) /\
+  forall x, In x st -> snd (fst (fst x)) = total_blocks c /\ snd x = N.to_nat ((total_blocks c + 63) / 64).
+
+Record Inv (c : cfg) (st : list (N * N * bool * nat)) (p : pool) : Prop := {
+  i_static : map static (p_addrs p) = st;
+  i_blk : forall k b, In b (blocks_of p k) ->
+      exists a, faddr (p_addrs p) (b_ip b) = Some a /\ a_excl a = false /\
+                start_ok c (total_blocks c) (b_start b) = true /\ b_end b = b_start b + c_bs c - 1 /\
+                test_bit (a_bits a) (idx_of c (b_start b)) = true;
+  i_excl : forall k1 k2 b1 b2, In b1 (blocks_of p k1) -> In b2 (blocks_of p k2) ->
+      b_ip b1 = b_ip b2 -> b_start b1 = b_start b2 -> k1 = k2;
+  i_limit : forall k, N.of_nat (length (blocks_of p k)) <= c_max c;
+  i_paired : c_paired c = true -> forall k b1 b2, In b1 (blocks_of p k) -> In b2 (blocks_of p k) -> b_ip b1 = b_ip b2 }.
+
+Lemma inv_nodup c st p : wfst c st -> Inv c st p -> NoDup (map a_ip (p_addrs p)).
+Proof. intros [ND _] I. rewrite map_ip_static, (i_static _ _ _ I). exact ND. Qed.
+Lemma inv_addr c st p a : wfst c st -> Inv c st p -> In a (p_addrs p) ->
+  a_total a = total_blocks c /\ length (a_bits a) = N.to_nat ((total_blocks c + 63) / 64).
+Proof.
+  intros [_ H] I Ha. apply (in_map static) in Ha. rewrite (i_static _ _ _ I) in Ha.
+  apply H in Ha. exact Ha.
+Qed.
+
+Lemma block_eq b1 b2 : b_ip b1 = b_ip b2 -> b_start b1 = b_start b2 -> b_end b1 = b_end b2 -> b1 = b2.
+Proof. destruct b1, b2; simpl; intros; subst; reflexivity. Qed.
+
+Lemma word_in_range tb idx : idx < tb -> (word_of idx < N.to_nat ((tb + 63) / 64))%nat.
+Proof. unfold word_of. intros. lia. Qed.
+
+Lemma grant_inv c st p k b i a :
+  wf c -> wfst c st -> Inv c st p ->
+  nth_error (p_addrs p) i = Some a -> a_ip a = b_ip b -> a_excl a = false ->
+  start_ok c (total_blocks c) (b_start b) = true -> b_end b = b_start b + c_bs c - 1 ->
+  (test_bit (a_bits a) (idx_of c (b_start b)) = false \/ In b (blocks_of p k)) ->
+  N.of_nat (length (blocks_of p k)) < c_max c ->
+  (c_paired c = true -> forall b', In b' (blocks_of p k) -> b_ip b' = b_ip b) ->
+  Inv c st (add_block p k b (upd_nth i (fun a => with_bits a (set_bit (a_bits a) (idx_of c (b_start b)))) (p_addrs p))).
+Proof.
+  intros W WS I Hn Hip Hex Hso Hend Hfree Hlim Hpair.
+  pose proof (inv_nodup _ _ _ WS I) as ND.
+  set (f := fun a0 : addr => with_bits a0 (set_bit (a_bits a0) (idx_of c (b_start b)))).
+  assert (Hf : forall a0, a_ip (f a0) = a_ip a0) by reflexivity.
+  assert (FA : forall ip, faddr (upd_nth i f (p_addrs p)) ip = if a_ip a =? ip then Some (f a) else faddr (p_addrs p) ip)
+    by (intros; apply faddr_upd; auto).
+  assert (Hmono : forall ip a0 idx, faddr (p_addrs p) ip = Some a0 -> test_bit (a_bits a0) idx = true ->
+            exists a1, faddr (upd_nth i f (p_addrs p)) ip = Some a1 /\ a_excl a1 = a_excl a0 /\ test_bit (a_bits a1) idx = true).
+  { intros ip a0 idx F T. rewrite FA. destruct (N.eqb_spec (a_ip a) ip) as [E|E].
+    - exists (f a). split; [reflexivity|].
+      assert (a0 = a). { rewrite <- E in F. rewrite (faddr_nth _ ND _ _ Hn) in F. congruence. }
+      subst a0. split; [reflexivity|]. unfold f; simpl. rewrite test_set_bit, T. apply orb_true_r.
+    - exists a0; auto. }
+  destruct (start_ok_spec c _ W Hso) as (idx & Hidx & _ & Hio & _).
+  assert (Hnew : exists a1, faddr (upd_nth i f (p_addrs p)) (b_ip b) = Some a1 /\ a_excl a1 = false /\
+                     test_bit (a_bits a1) (idx_of c (b_start b)) = true).
+  { exists (f a). rewrite FA, Hip, N.eqb_refl. split; [reflexivity|]. split; [exact Hex|].
+    unfold f; simpl. rewrite test_set_bit, N.eqb_refl.
+    destruct (inv_addr _ _ _ a WS I (nth_error_In _ _ Hn)) as [_ L]. rewrite L, Hio.
+    pose proof (word_in_range _ _ Hidx). destruct (Nat.ltb_spec (word_of idx) (N.to_nat ((total_blocks c + 63) / 64))); [reflexivity|lia]. }
+  constructor.
+  - simpl. rewrite map_static_upd; [apply (i_static _ _ _ I)|].
+    intros a0. unfold static, f; simpl. rewrite set_bit_length. reflexivity.
+  - intros k' b' Hin. rewrite blocks_of_add in Hin. cbn [p_addrs add_block].
+    assert (Hold : In b' (blocks_of p k') -> exists a0, faddr (upd_nth i f (p_addrs p)) (b_ip b') = Some a0 /\ a_excl a0 = false /\
+               start_ok c (total_blocks c) (b_start b') = true /\ b_end b' = b_start b' + c_bs c - 1 /\
+               test_bit (a_bits a0) (idx_of c (b_start b')) = true).
+    { intros Ho. destruct (i_blk _ _ _ I _ _ Ho) as (a0 & F & X & S & E & T).
+      destruct (Hmono _ _ _ F T) as (a1 & F1 & X1 & T1). exists a1. rewrite X1. auto. }
+    destruct (N.eqb_spec k' k) as [->|NE]; [|auto].
+    apply in_app_or in Hin. destruct Hin as [Ho|[<-|[]]]; [auto|].
+    destruct Hnew as (a1 & F1 & X1 & T1). exists a1; auto.
+  - intros k1 k2 b1 b2 H1 H2 Eip Est. rewrite blocks_of_add in H1, H2.
+    assert (Hcross : forall k' b', k' <> k -> In b' (blocks_of p k') -> b_ip b' = b_ip b -> b_start b' = b_start b -> False).
+    { intros k' b' NE Hb' E1 E2. destruct Hfree as [Hclr|Hheld].
+      - destruct (i_blk _ _ _ I _ _ Hb') as (a0 & F & _ & _ & _ & T).
+        rewrite E1, <- Hip, (faddr_nth _ ND _ _ Hn) in F. inversion F; subst a0. rewrite E2 in T. congruence.
+      - apply NE. eapply (i_excl _ _ _ I); eauto. }
+    destruct (N.eqb_spec k1 k) as [->|N1]; destruct (N.eqb_spec k2 k) as [->|N2]; auto.
+    + apply in_app_or in H1. destruct H1 as [H1|[<-|[]]].
+      * eapply (i_excl _ _ _ I); eauto.
+      * exfalso. eapply (Hcross k2 b2); eauto.
+    + apply in_app_or in H2. destruct H2 as [H2|[<-|[]]].
+      * eapply (i_excl _ _ _ I); eauto.
+      * exfalso. eapply (Hcross k1 b1); eauto.
+    + eapply (i_excl _ _ _ I); eauto.
+  - intros k'. rewrite blocks_of_add. destruct (N.eqb_spec k' k) as [->|NE]; [|apply (i_limit _ _ _ I)].
+    rewrite app_length. simpl. lia.
+  - intros P k' b1 b2 H1 H2. rewrite blocks_of_add in H1, H2.
+    destruct (N.eqb_spec k' k) as [->|NE]; [|eapply (i_paired _ _ _ I); eauto].
+    apply in_app_or in H1. apply in_app_or in H2.
+    destruct H1 as [H1|[<-|[]]]; destruct H2 as [H2|[<-|[]]]; auto.
+    + eapply (i_paired _ _ _ I); eauto.
+    + symmetry. auto.
+Qed.
+
+(* ---------- release ---------- *)
+Lemma faddr_upd_first f l ip0 ip : (forall a, a_ip (f a) = a_ip a) ->
+  forall i, findi (fun a => a_ip a =? ip0) l = Some i ->
+  faddr (upd_nth i f l) ip = if ip0 =? ip then option_map f (faddr l ip0) else faddr l ip.
+Proof.
+  intros Hf. unfold faddr. induction l as [|x l IH]; simpl; intros i H; [discriminate|].
+  destruct (N.eqb_spec (a_ip x) ip0) as [E|E].
+  - inversion H; subst i. simpl. rewrite Hf.
+    destruct (N.eqb_spec ip0 ip) as [E2|E2].
+    + rewrite E, E2, N.eqb_refl. reflexivity.
+    + destruct (N.eqb_spec (a_ip x) ip); [congruence|reflexivity].
+  - destruct (findi _ l) as [j|] eqn:F; [|discriminate]. inversion H; subst i. simpl.
+    destruct (N.eqb_spec (a_ip x) ip) as [E2|E2].
+    + destruct (N.eqb_spec ip0 ip); [congruence|reflexivity].
+    + apply IH. reflexivity.
+Qed.
+
+Definition ainfo (addrs : list addr) (ip idx : N) : option (bool * bool) :=
+  option_map (fun a => (a_excl a, test_bit (a_bits a) idx)) (faddr addrs ip).
+
+Lemma ainfo_release_one c addrs b ip idx :
+  ainfo (release_one c addrs b) ip idx =
+  option_map (fun xt => (fst xt, snd xt && negb ((b_ip b =? ip) && (idx_of c (b_start b) =? idx)))) (ainfo addrs ip idx).
+Proof.
+  unfold release_one, ainfo. destruct (findi _ addrs) as [i|] eqn:F.
+  - rewrite (faddr_upd_first _ _ (b_ip b) ip) by (auto || reflexivity).
+    destruct (N.eqb_spec (b_ip b) ip) as [E|E]; simpl.
+    + subst ip. destruct (faddr addrs (b_ip b)) as [a|]; simpl; [|reflexivity].
+      rewrite test_clear_bit. reflexivity.
+    + destruct (faddr addrs ip); simpl; [rewrite andb_true_r|]; reflexivity.
+  - destruct (N.eqb_spec (b_ip b) ip) as [E|E]; simpl.
+    + subst ip. rewrite (faddr_findi_none _ _ F). reflexivity.
+    + destruct (faddr addrs ip); simpl; [rewrite andb_true_r|]; reflexivity.
+Qed.
+Lemma ainfo_release_fold c bl : forall addrs ip idx,
+  ainfo (fold_left (release_one c) bl addrs) ip idx =
+  option_map (fun xt => (fst xt, snd xt && forallb (fun b => negb ((b_ip b =? ip) && (idx_of c (b_start b) =? idx))) bl))
+             (ainfo addrs ip idx).
+Proof.
+  induction bl as [|b bl IH]; intros; simpl.
+  - destruct (ainfo addrs ip idx) as [[x t]|]; simpl; [rewrite andb_true_r|]; reflexivity.
+  - rewrite IH, ainfo_release_one. destruct (ainfo addrs ip idx) as [[x t]|]; simpl; [|reflexivity].
+    rewrite andb_assoc. reflexivity.
+Qed.
+Lemma static_release_one c addrs b : map static (release_one c addrs b) = map static addrs.
+Proof.
+  unfold release_one. destruct (findi _ addrs); [|reflexivity]. apply map_static_upd.
+  intros a. unfold static, free_block; simpl. rewrite clear_bit_length. reflexivity.
+Qed.
+Lemma static_release_fold c bl : forall addrs, map static (fold_left (release_one c) bl addrs) = map static addrs.
+Proof. induction bl; intros; simpl; [reflexivity|]. rewrite IHbl. apply static_release_one. Qed.
+
+Lemma ainfo_blk addrs ip idx : ainfo addrs ip idx = Some (false, true) <->
+  exists a, faddr addrs ip = Some a /\ a_excl a = false /\ test_bit (a_bits a) idx = true.
+Proof.
+  unfold ainfo. split.
+  - destruct (faddr addrs ip) as [a|]; simpl; [|discriminate]. intros H; inversion H. exists a; auto.
+  - intros (a & -> & X & T). simpl. rewrite X, T. reflexivity.
+Qed.
+
+Lemma blocks_of_release c p k k' :
+  blocks_of (release c p k) k' = if k' =? k then [] else blocks_of p k'.
+Proof.
+  unfold release, blocks_of. destruct (sub_get k (p_subs p)) as [bl|] eqn:G; simpl.
+  - rewrite sub_get_del. destruct (k' =? k); reflexivity.
+  - destruct (N.eqb_spec k' k) as [->|]; [rewrite G|]; reflexivity.
+Qed.
+
+Lemma release_inv c st p k : wf c -> Inv c st p -> Inv c st (release c p k).
+Proof.
+  intros W I.
+  assert (Hsub : forall k', k' <> k -> blocks_of (release c p k) k' = blocks_of p k').
+  { intros k' NE. rewrite blocks_of_release. destruct (N.eqb_spec k' k); congruence. }
+  assert (Hk : blocks_of (release c p k) k = []) by (rewrite blocks_of_release, N.eqb_refl; reflexivity).
+  assert (Hin : forall k' b, In b (blocks_of (release c p k) k') -> k' <> k /\ In b (blocks_of p k')).
+  { intros k' b H. destruct (N.eq_dec k' k) as [->|NE]; [rewrite Hk in H; contradiction|]. rewrite Hsub in H; auto. }
+  constructor.
+  - unfold release. destruct (sub_get k (p_subs p)); simpl; [rewrite static_release_fold|]; apply (i_static _ _ _ I).
+  - intros k' b H. destruct (Hin _ _ H) as [NE Hb].
+    destruct (i_blk _ _ _ I _ _ Hb) as (a & F & X & S & E & T).
+    assert (A : ainfo (p_addrs (release c p k)) (b_ip b) (idx_of c (b_start b)) = Some (false, true)).
+    { unfold release. destruct (sub_get k (p_subs p)) as [bl|] eqn:G; simpl.
+      - rewrite ainfo_release_fold.
+        assert (A0 : ainfo (p_addrs p) (b_ip b) (idx_of c (b_start b)) = Some (false, true)) by (apply ainfo_blk; eauto).
+        rewrite A0. simpl. f_equal. f_equal. apply forallb_forall. intros b0 Hb0.
+        apply negb_true_iff. apply andb_false_iff.
+        destruct (N.eqb_spec (b_ip b0) (b_ip b)) as [E1|E1]; [|auto]. right.
+        apply N.eqb_neq. intros E2.
+        assert (Hb0' : In b0 (blocks_of p k)) by (unfold blocks_of; rewrite G; exact Hb0).
+        destruct (i_blk _ _ _ I _ _ Hb0') as (_ & _ & _ & S0 & _ & _).
+        pose proof (start_ok_inj c _ _ W S0 S E2) as ES.
+        apply NE. symmetry. eapply (i_excl _ _ _ I); eauto.
+      - apply ainfo_blk; eauto. }
+    apply ainfo_blk in A. destruct A as (a1 & F1 & X1 & T1). exists a1; auto.
+  - intros k1 k2 b1 b2 H1 H2. destruct (Hin _ _ H1), (Hin _ _ H2). eapply (i_excl _ _ _ I); eauto.
+  - intros k'. destruct (N.eq_dec k' k) as [->|NE]; [rewrite Hk; simpl; lia|rewrite Hsub by auto; apply (i_limit _ _ _ I)].
+  - intros P k' b1 b2 H1 H2. destruct (Hin _ _ H1), (Hin _ _ H2). eapply (i_paired _ _ _ I); eauto.
+Qed.
+
+(* ---------- allocateBlock ---------- *)
+Lemma alloc_in_word_spec fuel : forall w base bit total idx,
+  alloc_in_word fuel w base bit total = Some (Some idx) ->
+  exists b', bit <= b' /\ b' < bit + N.of_nat fuel /\ idx = base + b' /\ N.testbit w b' = false /\ idx < total.
+Proof.
+  induction fuel as [|f IH]; simpl; intros w base bit total idx H; [discriminate|].
+  destruct (N.leb_spec total (base + bit)) as [L|L]; [discriminate|].
+  destruct (N.testbit w bit) eqn:T.
+  - destruct (IH _ _ _ _ _ H) as (b' & ? & ? & ? & ? & ?). exists b'. repeat split; auto; lia.
+  - inversion H; subst. exists bit. repeat split; auto; lia.
+Qed.
+
+Lemma alloc_words_spec ws : forall i total idx,
+  alloc_words ws i total = Some idx ->
+  exists j, (j < length ws)%nat /\ idx / 64 = i + N.of_nat j /\ N.testbit (nth j ws 0) (idx mod 64) = false /\ idx < total.
+Proof.
+  induction ws as [|w r IH]; cbn [alloc_words length]; intros i total idx H; [discriminate|].
+  assert (Hrec : alloc_words r (i + 1) total = Some idx ->
+          exists j, (j < S (length r))%nat /\ idx / 64 = i + N.of_nat j /\
+                    N.testbit (nth j (w :: r) 0) (idx mod 64) = false /\ idx < total).
+  { intros H'. destruct (IH _ _ _ H') as (j & ? & ? & ? & ?). exists (S j). cbn [nth]. repeat split; auto; lia. }
+  destruct (w =? all_ones); [auto|].
+  destruct (alloc_in_word 64 w (i * 64) 0 total) as [[res|]|] eqn:A; [| discriminate | auto].
+  inversion H; subst res. destruct (alloc_in_word_spec _ _ _ _ _ _ A) as (b' & ? & ? & ? & ? & ?).
+  exists O. cbn [nth]. assert (b' < 64) by (cbn in *; lia).
+  assert (idx / 64 = i) by (subst idx; rewrite N.add_comm, N.div_add by lia; rewrite N.div_small by lia; lia).
+  assert (idx mod 64 = b') by (subst idx; rewrite N.add_comm, N.mod_add by lia; apply N.mod_small; lia).
+  repeat split; try lia. congruence.
+Qed.
+
+Lemma allocate_block_spec a idx a' : allocate_block a = Some (idx, a') ->
+  idx < a_total a /\ test_bit (a_bits a) idx = false /\ a' = with_bits a (set_bit (a_bits a) idx).
+Proof.
+  unfold allocate_block. destruct (alloc_words (a_bits a) 0 (a_total a)) as [i|] eqn:A; [|discriminate].
+  intros H; inversion H; subst. destruct (alloc_words_spec _ _ _ _ A) as (j & ? & D & T & ?).
+  repeat split; auto. unfold test_bit, word_of. replace (N.to_nat (idx / 64)) with j by lia. exact T.
+Qed.
+
+Lemma upd_nth_const {A} (f : A -> A) (x' : A) l : forall i x, nth_error l i = Some x -> f x = x' ->
+  upd_nth i (fun _ => x') l = upd_nth i f l.
+Proof. induction l as [|y l IH]; intros [|i] x H E; simpl in *; try discriminate; [inversion H; congruence|]. f_equal. eauto. Qed.
+
+(* ---------- who may be the target ---------- *)
+Lemma limit_not_reached c p k : wf c -> limit_reached c p k = false -> N.of_nat (length (blocks_of p k)) < c_max c.
+Proof.
+  unfold limit_reached, blocks_of. intros (_ & _ & _ & M). destruct (sub_get k (p_subs p)); simpl; lia.
+Qed.
+
+Lemma paired_target_some c st p k i a : wfst c st -> Inv c st p ->
+  paired_target c p k = Some i -> nth_error (p_addrs p) i = Some a ->
+  a_excl a = false /\ forall b', In b' (blocks_of p k) -> b_ip b' = a_ip a.
+Proof.
+  unfold paired_target. intros WS I H Hn. destruct (blocks_of p k) as [|b0 r] eqn:B; [discriminate|].
+  destruct (c_paired c) eqn:P; [|discriminate].
+  destruct (findi_spec _ _ _ H) as (a0 & Hn0 & F). rewrite Hn in Hn0. inversion Hn0; subst a0.
+  apply andb_true_iff in F. destruct F as [F1 F2]. apply N.eqb_eq in F1. apply negb_true_iff in F2.
+  split; [exact F2|]. intros b' Hb'. rewrite F1. eapply (i_paired _ _ _ I P k); rewrite B; simpl; auto.
+Qed.
+Lemma paired_target_none c st p k : Inv c st p -> paired_target c p k = None -> c_paired c = true -> blocks_of p k = [].
+Proof.
+  unfold paired_target. intros I H P. destruct (blocks_of p k) as [|b0 r] eqn:B; [reflexivity|]. rewrite P in H.
+  assert (Hb : In b0 (blocks_of p k)) by (rewrite B; simpl; auto).
+  destruct (i_blk _ _ _ I _ _ Hb) as (a & F & X & _). apply faddr_some in F. destruct F as [Fi Fe].
+  pose proof (findi_none _ _ H a Fi) as N. simpl in N. rewrite Fe, N.eqb_refl, X in N. discriminate.
+Qed.
+
+Lemma alloc_literal_inv c st p k b p' : wf c -> wfst c st -> Inv c st p ->
+  alloc_literal c p k = inr (b, p') -> Inv c st p'.
+Proof.
+  intros W WS I. unfold alloc_literal.
+  destruct (limit_reached c p k) eqn:L; [discriminate|].
+  destruct (choose_target c p k) as [i|] eqn:C; [|discriminate].
+  destruct (nth_error (p_addrs p) i) as [a|] eqn:Hn; [|discriminate].
+  destruct (allocate_block a) as [[idx a']|] eqn:A; [|discriminate].
+  intros H; inversion H; subst b p'; clear H.
+  destruct (allocate_block_spec _ _ _ A) as (Hidx & Hclr & Ha').
+  destruct (inv_addr _ _ _ a WS I (nth_error_In _ _ Hn)) as [Htot _]. rewrite Htot in Hidx.
+  destruct (block_at_spec c (a_ip a) idx W Hidx) as (B1 & B2 & B3 & B4 & B5).
+  rewrite (upd_nth_const (fun a0 => with_bits a0 (set_bit (a_bits a0) (idx_of c (b_start (block_at c (a_ip a) idx))))) a' _ i a Hn)
+    by (rewrite B5; auto).
+  assert (T : a_excl a = false /\ (c_paired c = true -> forall b', In b' (blocks_of p k) -> b_ip b' = a_ip a)).
+  { unfold choose_target in C. destruct (paired_target c p k) as [i'|] eqn:PT.
+    - inversion C; subst i'. destruct (paired_target_some _ _ _ _ _ _ WS I PT Hn). auto.
+    - unfold first_free in C. destruct (findi_spec _ _ _ C) as (a0 & Hn0 & F). rewrite Hn in Hn0. inversion Hn0; subst a0.
+      apply andb_true_iff in F. destruct F as [F _]. apply negb_true_iff in F. split; [exact F|].
+      intros P b' Hb'. rewrite (paired_target_none _ _ _ _ I PT P) in Hb'. contradiction. }
+  destruct T as [Hex Hp].
+  eapply grant_inv; eauto.
+  all: try (rewrite B5; auto; fail).
+  all: try (apply limit_not_reached; auto; fail).
+  all: try (intros P b' Hb'; rewrite B1; auto; fail).
+Qed.
+
+Lemma obs_addr_ok_spec c st p b a : wfst c st -> Inv c st p -> In a (p_addrs p) -> obs_addr_ok c b a = true ->
+  a_ip a = b_ip b /\ a_excl a = false /\ start_ok c (total_blocks c) (b_start b) = true /\
+  b_end b = b_start b + c_bs c - 1 /\ test_bit (a_bits a) (idx_of c (b_start b)) = false.
+Proof.
+  intros WS I Ha H. unfold obs_addr_ok in H. rewrite !andb_true_iff, !negb_true_iff, !N.eqb_eq in H.
+  destruct H as ((((H1 & H2) & H3) & H4) & H5). destruct (inv_addr _ _ _ a WS I Ha) as [Htot _].
+  rewrite Htot in H3. auto.
+Qed.
+
+Lemma alloc_obs_inv c st p k b p' : wf c -> wfst c st -> Inv c st p ->
+  alloc_obs c p k b = Some p' -> Inv c st p'.
+Proof.
+  intros W WS I. unfold alloc_obs.
+  destruct (limit_reached c p k) eqn:L; [discriminate|].
+  destruct (paired_target c p k) as [i|] eqn:PT.
+  - destruct (nth_error (p_addrs p) i) as [a|] eqn:Hn; [|discriminate].
+    destruct (obs_addr_ok c b a) eqn:O; [|discriminate]. intros H; inversion H; subst p'; clear H.
+    destruct (obs_addr_ok_spec _ _ _ _ _ WS I (nth_error_In _ _ Hn) O) as (E1 & E2 & E3 & E4 & E5).
+    destruct (paired_target_some _ _ _ _ _ _ WS I PT Hn) as [_ Hp].
+    eapply grant_inv; eauto.
+    all: try (apply limit_not_reached; auto; fail).
+    all: try (intros P b' Hb'; rewrite <- E1; auto; fail).
+  - destruct (findi (obs_addr_ok c b) (p_addrs p)) as [i|] eqn:F; [|discriminate].
+    intros H; inversion H; subst p'; clear H.
+    destruct (findi_spec _ _ _ F) as (a & Hn & O).
+    destruct (obs_addr_ok_spec _ _ _ _ _ WS I (nth_error_In _ _ Hn) O) as (E1 & E2 & E3 & E4 & E5).
+    eapply grant_inv; eauto.
+    all: try (apply limit_not_reached; auto; fail).
+    all: try (intros P b' Hb'; rewrite (paired_target_none _ _ _ _ I PT P) in Hb'; contradiction).
+Qed.
+
+Lemma do_alloc_inv c st p k obs : wf c -> wfst c st -> Inv c st p -> Inv c st (fst (do_alloc c p k obs)).
+Proof.
+  intros W WS I. unfold do_alloc. destruct (alloc_literal c p k) as [e|[b p']] eqn:A; [exact I|].
+  pose proof (alloc_literal_inv _ _ _ _ _ _ W WS I A) as I'.
+  destruct obs as [o|]; [|exact I']. destruct (block_eqb o b); [exact I'|].
+  destruct (alloc_obs c p k o) as [p''|] eqn:O; [|exact I]. exact (alloc_obs_inv _ _ _ _ _ _ W WS I O).
+Qed.
+
+(* ---------- restore ---------- *)
+Lemma holds_block_in c st p k b : wf c -> Inv c st p -> holds_block (blocks_of p k) b = true ->
+  b_end b = b_start b + c_bs c - 1 -> In b (blocks_of p k).
+Proof.
+  intros W I H E. unfold holds_block in H. apply existsb_exists in H. destruct H as (x & Hx & H).
+  apply andb_true_iff in H. rewrite !N.eqb_eq in H. destruct H as [H1 H2].
+  destruct (i_blk _ _ _ I _ _ Hx) as (_ & _ & _ & _ & Ex & _).
+  assert (x = b) by (apply block_eq; congruence). subst. exact Hx.
+Qed.
+
+Lemma restore_repaired_inv c st p k b ia p' : wf c -> wfst c st -> Inv c st p ->
+  restore_repaired c p k b ia = Some p' -> Inv c st p'.
+Proof.
+  intros W WS I. unfold restore_repaired.
+  destruct (ia && holds_block (blocks_of p k) b); [intros H; inversion H; subst; exact I|].
+  destruct (findi _ (p_addrs p)) as [i|] eqn:F; [|discriminate].
+  destruct (faddr_findi _ _ _ F) as (a & Hn & Fa). rewrite Hn.
+  destruct (a_excl a) eqn:X; [discriminate|].
+  destruct (start_ok c (a_total a) (b_start b)) eqn:S; [|discriminate]. simpl.
+  destruct (N.eqb_spec (b_end b) (b_start b + c_bs c - 1)) as [E|E]; [|discriminate]. simpl.
+  destruct (negb (holds_block (blocks_of p k) b) && test_bit (a_bits a) (idx_of c (b_start b))) eqn:HB; [discriminate|].
+  destruct (limit_reached c p k) eqn:L; [discriminate|].
+  destruct (c_paired c && match blocks_of p k with b0 :: _ => negb (b_ip b0 =? b_ip b) | [] => false end) eqn:P; [discriminate|].
+  intros H; inversion H; subst p'; clear H.
+  destruct (inv_addr _ _ _ a WS I (nth_error_In _ _ Hn)) as [Htot _]. rewrite Htot in S.
+  apply faddr_some in Fa. destruct Fa as [_ Fip].
+  assert (G1 : test_bit (a_bits a) (idx_of c (b_start b)) = false \/ In b (blocks_of p k)).
+  { apply andb_false_iff in HB. destruct HB as [HB|HB]; [right|left; exact HB].
+    apply negb_false_iff in HB. eapply holds_block_in; eauto. }
+  assert (G2 : c_paired c = true -> forall b', In b' (blocks_of p k) -> b_ip b' = b_ip b).
+  { intros Pp b' Hb'. rewrite Pp in P. simpl in P. destruct (blocks_of p k) as [|b0 r] eqn:B; [contradiction|].
+    apply negb_false_iff, N.eqb_eq in P. rewrite <- P.
+    eapply (i_paired _ _ _ I Pp k); rewrite B; simpl; auto. }
+  eapply grant_inv; eauto.
+  all: try (apply limit_not_reached; auto; fail).
+Qed.
+
+Lemma step_inv c st p o : wf c -> wfst c st -> Inv c st p -> Inv c st (fst (step repaired c p o)).
+Proof.
+  intros W WS I. destruct o as [k obs|k obs|k|k b|k b]; simpl.
+  - apply do_alloc_inv; auto.
+  - destruct (blocks_of p k); [apply do_alloc_inv; auto|exact I].
+  - apply release_inv; auto.
+  - unfold restore; simpl. destruct (restore_repaired c p k b false) eqn:R; simpl; [eapply restore_repaired_inv; eauto|exact I].
+  - unfold restore; simpl. destruct (restore_repaired c p k b true) eqn:R; simpl; [eapply restore_repaired_inv; eauto|exact I].
+Qed.
+
+Lemma run_inv c st ops : wf c -> wfst c st -> forall p, Inv c st p -> Inv c st (run repaired c p ops).
+Proof.
+  intros W WS. unfold run. induction ops as [|o ops IH]; intros p I; simpl; [exact I|].
+  apply IH. apply step_inv; auto.
+Qed.
+
+(* ---------- ConfigurePool establishes the invariant ---------- *)
+Lemma dedup_spec l : forall seen, NoDup (dedup seen l) /\ forall x, In x (dedup seen l) -> ~ In x seen /\ In x l.
+Proof.
+  induction l as [|y l IH]; intros seen; simpl.
+  - split; [constructor|contradiction].
+  - destruct (existsb (N.eqb y) seen) eqn:E.
+    + destruct (IH seen) as [ND H]. split; [exact ND|]. intros x Hx. destruct (H x Hx). auto.
+    + destruct (IH (y :: seen)) as [ND H]. split.
+      * constructor; [|exact ND]. intros Hy. destruct (H y Hy) as [N _]. apply N. simpl; auto.
+      * intros x [<-|Hx].
+        -- split; [|auto]. intros Hs. assert (existsb (N.eqb y) seen = true); [|congruence].
+           apply existsb_exists. exists y. split; [exact Hs|apply N.eqb_refl].
+        -- destruct (H x Hx) as [N1 N2]. split; [|auto]. intros Hs. apply N1. simpl; auto.
+Qed.
+
+Definition wf_range (r : rawcfg) : Prop := get_pstart r <= get_pend r /\ get_pend r < two16.
+
+Lemma configure_inv r p0 : wf_range r -> configure repaired r = Some p0 ->
+  wf (effective r) /\ wfst (effective r) (map static (p_addrs p0)) /\ Inv (effective r) (map static (p_addrs p0)) p0.
+Proof.
+  intros [R1 R2] H. unfold configure in H.
+  destruct (N.eqb_spec (c_bs (effective r)) 0) as [E|E]; [discriminate|]. inversion H; subst p0; clear H.
+  assert (W : wf (effective r)).
+  { unfold wf. cbn [effective c_bs c_pstart c_pend c_max] in *. unfold get_max.
+    repeat split; try lia. destruct (N.ltb_spec 0 (r_max r)); lia. }
+  split; [exact W|]. cbn [p_addrs p_subs].
+  split.
+  - split.
+    + rewrite <- map_ip_static. rewrite map_map. cbn [a_ip]. rewrite map_id.
+      unfold outside_ips. cbn [repaired v_dedup]. apply dedup_spec.
+    + intros x Hx. rewrite map_map in Hx. apply in_map_iff in Hx. destruct Hx as (ip & <- & _).
+      unfold static; simpl. rewrite repeat_length. auto.
+  - destruct W as (_ & _ & _ & M).
+    constructor; unfold blocks_of; simpl; try reflexivity; try (intros; contradiction); try (intros; lia).
+Qed.
+
+(* ---------- the property, read off the invariant ---------- *)
+Section Reach.
+  Variable r : rawcfg.
+  Variable p0 : pool.
+  Hypothesis Hr : wf_range r.
+  Hypothesis Hc : configure repaired r = Some p0.
+  Let c := effective r.
+  Let st := map static (p_addrs p0).
+
+  Lemma reach_inv ops : Inv c st (run repaired c p0 ops).
+  Proof. destruct (configure_inv r p0 Hr Hc) as (W & WS & I). apply run_inv; auto. Qed.
+  Lemma reach_wf : wf c.
+  Proof. destruct (configure_inv r p0 Hr Hc) as (W & WS & I). exact W. Qed.
+End Reach.
+
+Lemma inv_disjoint c st p : wf c -> Inv c st p -> forall k1 k2 b1 b2, k1 <> k2 ->
+  In b1 (blocks_of p k1) -> In b2 (blocks_of p k2) -> b_ip b1 = b_ip b2 ->
+  b_end b1 < b_start b2 \/ b_end b2 < b_start b1.
+Proof.
+  intros W I k1 k2 b1 b2 NE H1 H2 Eip.
+  destruct (i_blk _ _ _ I _ _ H1) as (_ & _ & _ & S1 & E1 & _).
+  destruct (i_blk _ _ _ I _ _ H2) as (_ & _ & _ & S2 & E2 & _).
+  assert (b_start b1 <> b_start b2) by (intros E; apply NE; eapply (i_excl _ _ _ I); eauto).
+  rewrite E1, E2. apply start_ok_disjoint; auto.
+Qed.
+
+Lemma inv_block_ok c st p : wf c -> wfst c st -> Inv c st p -> forall k b, In b (blocks_of p k) ->
+  (exists a, In a (p_addrs p) /\ a_ip a = b_ip b /\ a_excl a = false) /\
+  c_pstart c <= b_start b /\ (b_start b - c_pstart c) mod c_bs c = 0 /\
+  b_end b = b_start b + c_bs c - 1 /\ b_end b <= c_pend c.
+Proof.
+  intros W WS I k b H. destruct (i_blk _ _ _ I _ _ H) as (a & F & X & S & E & _).
+  apply faddr_some in F. destruct F as [Fi Fe].
+  split; [exists a; auto|].
+  destruct (start_ok_spec c _ W S) as (idx & _ & _ & _ & B).
+  unfold start_ok in S. rewrite !andb_true_iff, N.leb_le, N.eqb_eq in S. destruct S as ((S1 & S2) & _).
+  repeat split; auto. rewrite E. exact B.
+Qed.
+
+Lemma configure_addr r p0 a : configure repaired r = Some p0 ->
+  In (static a) (map static (p_addrs p0)) ->
+  In (a_ip a) (flat_map expand (r_outside r)) /\ (a_excl a = false -> ~ In (a_ip a) (r_excluded r)).
+Proof.
+  intros H Ha. unfold configure in H. destruct (c_bs (effective r) =? 0); [discriminate|]. inversion H; subst p0; clear H.
+  cbn [p_addrs] in Ha. rewrite map_map in Ha. apply in_map_iff in Ha. destruct Ha as (ip & E & Hip).
+  unfold static in E; simpl in E. inversion E as [[E1 E2 E3 E4]]. rewrite <- E1. split.
+  - unfold outside_ips in Hip. cbn [repaired v_dedup] in Hip. apply (proj2 (dedup_spec _ []) ip Hip).
+  - intros X Hin. assert (existsb (N.eqb ip) (r_excluded r) = true); [|congruence].
+    apply existsb_exists. exists ip. split; [exact Hin|apply N.eqb_refl].
+Qed.
+
+Section Statements.
+  Variable r : rawcfg.
+  Variable p0 : pool.
+  Variable ops : list op.
+  Hypothesis Hr : wf_range r.
+  Hypothesis Hc : configure repaired r = Some p0.
+  Let c := effective r.
+  Let p := run repaired c p0 ops.
+
+  Lemma disjoint_all k1 k2 b1 b2 : k1 <> k2 -> In b1 (blocks_of p k1) -> In b2 (blocks_of p k2) ->
+    b_ip b1 = b_ip b2 -> b_end b1 < b_start b2 \/ b_end b2 < b_start b1.
+  Proof. eapply inv_disjoint; [eapply reach_wf|eapply reach_inv]; eauto. Qed.
+
+  Lemma in_range_all k b : In b (blocks_of p k) ->
+    In (b_ip b) (flat_map expand (r_outside r)) /\ ~ In (b_ip b) (r_excluded r) /\
+    c_pstart c <= b_start b /\ (b_start b - c_pstart c) mod c_bs c = 0 /\
+    b_end b = b_start b + c_bs c - 1 /\ b_end b <= c_pend c.
+  Proof.
+    intros H. destruct (configure_inv r p0 Hr Hc) as (W & WS & I0).
+    pose proof (reach_inv r p0 Hr Hc ops) as I.
+    destruct (inv_block_ok _ _ _ W WS I _ _ H) as ((a & Ha & Eip & X) & R).
+    apply (in_map static) in Ha. rewrite (i_static _ _ _ I) in Ha.
+    destruct (configure_addr r p0 a Hc Ha) as [A1 A2]. rewrite Eip in *. auto.
+  Qed.
+
+  Lemma limit_all k : N.of_nat (length (blocks_of p k)) <= c_max c.
+  Proof. apply (i_limit _ _ _ (reach_inv r p0 Hr Hc ops)). Qed.
+
+  Lemma paired_all k b1 b2 : c_paired c = true -> In b1 (blocks_of p k) -> In b2 (blocks_of p k) -> b_ip b1 = b_ip b2.
+  Proof. intros P. apply (i_paired _ _ _ (reach_inv r p0 Hr Hc ops) P). Qed.
+End Statements.
